@@ -7,7 +7,7 @@ public method of a harness-side subclass; the store's lock is wrapped in a Detec
 import sys
 
 from rv import core
-from rv.locks import DetectingLock, WouldHang
+from rv.locks import DetectingLock, WouldHang, wrap_all_locks
 
 PID = "C04"
 LEVEL = "exploration"
@@ -120,8 +120,7 @@ def run_case(ctx, n):
     store = M(budget, gtp_budget=gtp, nadh_reserve=nadh, max_debt=max_debt, debt_interest=interest,
               on_state_change=lambda st: states.append(st.value), silent=True)
     peer = M(peer_cfg[0], gtp_budget=peer_cfg[1], nadh_reserve=peer_cfg[2], max_debt=peer_cfg[3], silent=True)
-    store._lock = DetectingLock(store._lock, "ATP_Store._lock")
-    peer._lock = DetectingLock(peer._lock, "peer._lock")
+    wrapped = wrap_all_locks(store, DetectingLock, "ATP_Store") + wrap_all_locks(peer, DetectingLock, "peer")
     cfg = {"budget": budget, "gtp": gtp, "nadh": nadh, "max_debt": max_debt, "interest": interest, "peer": peer_cfg}
     ET = {"ATP": EnergyType.ATP, "GTP": EnergyType.GTP, "NADH": EnergyType.NADH}
 
@@ -326,7 +325,7 @@ def run_case(ctx, n):
         viol("unbounded-total-spend", "successful spends total %d > initial %d + max_debt %d without regeneration" % (
             spent_ok, initial_total, max_debt))
     ctx.counters["invariant_evaluations"] = _INV["n"]
-    ctx.counters["lock_acquisitions"] = ctx.counters.get("lock_acquisitions", 0) + store._lock.acquisitions + peer._lock.acquisitions
+    ctx.counters["lock_acquisitions"] = ctx.counters.get("lock_acquisitions", 0) + sum(w.acquisitions for w in wrapped)
     if len(set(branches)) >= 2:
         cls = (min(budget, 3), min(gtp, 1), min(nadh, 1), min(max_debt, 1))
         ctx.nontrivial((cls, tuple(branches[:10])))
